@@ -22,7 +22,8 @@ from ..report import AnalysisError
 ACQ = "inference/gp/acquisition.py"
 OPT = "inference/gp/optimisation.py"
 FLOORS = {"value-form": 4, "objective-siblings": 5, "gradient-is-derivative": 4, "bounds-passed": 3,
-          "ownership": 4, "refit-order": 2}
+          "ownership": 4, "refit-order": 2,
+          "tail-guard": 3}
 
 MU, SIG, DMU, DVAR, MUMAX = (R.sym("mu"), R.sym("sig"), R.sym("dmu"), R.sym("dvar"), R.sym("self.mu_max"))
 
@@ -41,14 +42,18 @@ def acq_expander(prog, ci, branch):
     ex.call_hook = hook
 
     def on_if(node, env):
-        t = ast.unparse(node.test)
-        if t.startswith("Z <"):
+        if is_tail_switch(node):
             return branch
-        if t.startswith("type("):
-            return "skip"
         return "skip"
     ex.on_if = on_if
     return ex
+
+
+def is_tail_switch(node):
+    """The two-arm switch whose first arm uses the erfcx-based ratio (the far-tail form)."""
+    return isinstance(node, ast.If) and bool(node.orelse) and any(
+        isinstance(n, ast.Call) and ast.unparse(n.func) == "self.cdf_pdf_ratio"
+        for st in node.body for n in ast.walk(st))
 
 
 def evaluate(prog, ci, fn, branch):
@@ -60,6 +65,14 @@ def evaluate(prog, ci, fn, branch):
     def fix(v):
         return anf.subst(v, sub) if isinstance(v, R) else TupleV([fix(x) for x in v.items])
     return fix(res)
+
+
+def _neg_literal(node):
+    try:
+        v = ast.literal_eval(node)
+    except Exception:
+        return False
+    return isinstance(v, (int, float)) and v <= 0
 
 
 def total_derivative(obj):
@@ -87,7 +100,18 @@ def run(prog, tier):
         c, call = prog.method(ci.name, "__call__")
         c2, of = prog.method(ci.name, "opt_func")
         c3, og = prog.method(ci.name, "opt_func_gradient")
-        has_branch = any(isinstance(n, ast.If) and ast.unparse(n.test).startswith("Z <") for n in ast.walk(call))
+        has_branch = any(is_tail_switch(n) for n in ast.walk(call))
+        # the erfcx form is only finite for non-positive Z: erfcx(-Z/sqrt 2) overflows as Z -> +inf
+        for m_ in (call, of, og):
+            for n in ast.walk(m_):
+                if is_tail_switch(n):
+                    t = n.test
+                    okg = (isinstance(t, ast.Compare) and len(t.ops) == 1 and isinstance(t.ops[0], (ast.Lt, ast.LtE))
+                           and ast.unparse(t.left) == "Z" and _neg_literal(t.comparators[0]))
+                    obs.append(struct_ob("tail-guard", qual(c, m_), okg,
+                                         f"the erfcx-based far-tail arm must be guarded by `Z < c` with c <= 0 (erfcx(-Z/sqrt 2) overflows "
+                                         f"for large positive Z, so the value would not be EI there); guard is `{ast.unparse(t)}`",
+                                         ACQ, n.lineno))
         branches = [("orelse", "main"), ("body", "far-tail")] if has_branch else [("orelse", "")]
         for br, label in branches:
             tag = f"[{label}]" if label else ""
